@@ -184,7 +184,7 @@ Ltac tol_leaf := match goal with |- cmpb ?s ?a ?b = cmpb ?s' ?a' ?b' => constr_e
 Ltac hit_leaf :=
   cbv beta; rewrite ?dist_eq, ?pitch_eq; cbv beta;
   first [ same | tol_leaf
-        | match goal with |- (?x && ?c)%bool = (?y && ?d)%bool => constr_eq x y; f_equal; tol_leaf end ].
+        | match goal with |- (?x && ?c)%bool = (?y && ?d)%bool => constr_eq x y; apply (f_equal (andb x)); tol_leaf end ].
 
 (* the signatures the programs and [note_ext] assume *)
 Theorem note_sigs_expected :
